@@ -11,7 +11,7 @@ import (
 
 var outcomes = []string{"na", "na", "na", "ok", "ok", "ok", "ok", "nil", "rej401", "rej403", "rej418", "rej503", "plain", "plainctx", "plaindl", "okro", "okro", "okempty", "rej423p"}
 
-var authzKinds = []string{"none", "none", "allow", "allow", "deny", "deny409", "deny401", "denywrap"}
+var authzKinds = []string{"none", "none", "allow", "allow", "deny", "deny409", "deny401", "denywrap", "deny400", "deny599"}
 
 func genAlts(t *rapid.T, maxAlts int) []Alt {
 	n := rapid.IntRange(1, maxAlts).Draw(t, "alternatives")
